@@ -382,7 +382,8 @@ class MinErrorFlow():
             self._encode_flow()
             self._encode_min_sum_errors_objective()
             self._few_flow_values_model_installed = False
-            self._solution = None
+        # What was read from a previous run of the solver is not the solution of this run
+        self._solution = None
         self.solver.optimize()
         self.solve_statistics[f"milp_solve_time"] = (time.perf_counter() - start_time)
 
